@@ -194,6 +194,34 @@ def check_race(case, r, obs, expect_success=True):
                 continue
             t_star = max(q["t_exit"] for q in ends[cb])
             others = [q for t, qs in ends.items() if t != cb for q in qs]
+        # ... and not before: a task of the element that was cut short must still have been running when the first client of the
+        # completing task (for 'any': the first client to run its full specification) had finished
+        if cb == "any":
+            t_first = t_star
+        else:
+            per_client = {}
+            for q in ends[cb]:
+                per_client[q["client"]] = max(per_client.get(q["client"], 0.0), q["t_exit"])
+            t_first = min(per_client.values())
+        for leaf in tasks:
+            if leaf["name"] == cb:
+                continue
+            want = full_count(leaf)
+            for ci in range(leaf["clients"]):
+                qs = groups.get((leaf["name"], ci), [])
+                if not qs:
+                    continue
+                cut = (want is not None and len(qs) < want) or (
+                    want is None and qs[-1]["t_exit"] < qs[0]["t_enter"] + (leaf.get("warmup_time_period") or 0) + leaf["time_period"] - 1e-6
+                )
+                if cb == "any" and want is not None and len(qs) == want:
+                    cut = False
+                obs.check(
+                    not cut or qs[-1]["t_exit"] >= t_first - 1e-6,
+                    "completed-by-too-early",
+                    f"element {el_i} completed-by {cb}: task {leaf['name']} client {ci} was cut short at {qs[-1]['t_exit']:.3f} after {len(qs)} requests, "
+                    f"but the completing task's first client only finished at {t_first:.3f}",
+                )
         pre = max([sim_race.PREEMPT[i % len(sim_race.PREEMPT)] for i in (case.get("preempt") or [0])])
         bound = t_star + 2 * (wake + 0.125) + 2 * max_delay + 2 * longest + 2.0 + 10 * pre
         late = [q for q in others if q["t_enter"] > bound]
